@@ -130,6 +130,8 @@ def rule_guard(c: Ctx) -> RuleResult:
                         if endtxt is None:
                             return True
                         v = x.ast.value
+                        while isinstance(v, ast.BinOp) and isinstance(v.op, ast.Add) and isinstance(v.right, ast.Constant):
+                            v = v.left          # end + constant: still past the end of the range
                         return U(v) in (endtxt, f"{stn}.{endtxt}")
                 return False
             loop_heads = {h.id for h in cfg.nodes if h.kind in ("join",) and isinstance(h.ast, ast.While)}
@@ -197,17 +199,37 @@ def rule_guard(c: Ctx) -> RuleResult:
         a_, b_ = w.test.left, w.test.comparators[0]
         for cur_e, bnd_e, okop in ((a_, b_, (ast.Gt, ast.GtE)), (b_, a_, (ast.Lt, ast.LtE))):
             if isinstance(bnd_e, ast.Name) and isinstance(cur_e, ast.Name) and isinstance(w.test.ops[0], okop):
+                from ..interproc import expand
                 ds = rd.at_ast(w.test, bnd_e.id)
                 for d in ds:
-                    v = d.value
+                    v = expand(c, f, d.value, d.stmt) if d.value is not None and d.stmt is not None else d.value
                     if isinstance(v, ast.Subscript) and isinstance(v.value, ast.Subscript) and isinstance(v.value.value, ast.Name):
                         table = v.value.value.id
                         inner_loops.append((w, cur_e.id, bnd_e.id))
     tname = table or "<bounds table>"
-    reads = [n for n in own_nodes(f.node) if isinstance(n, ast.Subscript) and isinstance(n.ctx, ast.Load) and isinstance(n.value, ast.Subscript)
-             and U(n.value.value) == tname]
-    writes = [n for n in own_nodes(f.node) if isinstance(n, ast.Assign) and len(n.targets) == 1 and isinstance(n.targets[0], ast.Subscript)
-              and isinstance(n.targets[0].value, ast.Subscript) and U(n.targets[0].value.value) == tname]
+    from ..interproc import expand as _expand
+
+    class _W:          # a write `T[a][b] = v` with its (expanded) key
+        def __init__(self, node, key):
+            self.node, self.key = node, key
+            self.targets = node.targets
+    reads_k: set[tuple[str, str]] = set()
+    reads = []
+    for n in own_nodes(f.node):
+        if isinstance(n, ast.Subscript) and isinstance(n.ctx, ast.Load):
+            e_ = _expand(c, f, n, n)
+            if isinstance(e_, ast.Subscript) and isinstance(e_.value, ast.Subscript) and U(e_.value.value) == tname:
+                reads.append(n)
+                reads_k.add((U(e_.value.slice), U(e_.slice)))
+    writes_k: set[tuple[str, str]] = set()
+    writes = []
+    for n in own_nodes(f.node):
+        if isinstance(n, ast.Assign) and len(n.targets) == 1 and isinstance(n.targets[0], ast.Subscript):
+            t_ = n.targets[0]
+            e_ = ast.Subscript(value=_expand(c, f, t_.value, n), slice=_expand(c, f, t_.slice, n), ctx=ast.Load())
+            if isinstance(e_.value, ast.Subscript) and U(e_.value.value) == tname:
+                writes.append(n)
+                writes_k.add((U(e_.value.slice), U(e_.slice)))
 
     def norm(e: ast.AST) -> str:
         class N(ast.NodeTransformer):
@@ -222,8 +244,10 @@ def rule_guard(c: Ctx) -> RuleResult:
         r.add("delims|bounds", c.where(f, f.node), f.short, "table of opener lower bounds", "violation",
               "the table of opener lower bounds is " + ("never read" if not reads else "never written") + ": failed searches are repeated for every closer")
     else:
-        rk = {(norm(x.value.slice), norm(x.slice)) for x in reads}
-        wk = {(norm(x.targets[0].value.slice), norm(x.targets[0].slice)) for x in writes}
+        def normt(t: str) -> str:
+            return norm(ast.parse(t, mode="eval").body)
+        rk = {(normt(a_), normt(b_)) for (a_, b_) in reads_k}
+        wk = {(normt(a_), normt(b_)) for (a_, b_) in writes_k}
         ok = rk == wk
         r.add("delims|key", c.where(f, writes[0]), f.short, U(writes[0].targets[0])[:90], "discharged" if ok else "violation",
               "the lower bound is written under the key it is read with" if ok else
